@@ -17,11 +17,20 @@ RULE = ('the real Rmcp.establish_session / send_and_receive_raw x n / close_sess
         'close, and max_retries 0..3 with datagrams lost (Spec.BmcSession.stepLost: the monitor counts them, the BMC '
         'does not act) at every in-session and handshake position, in runs within and beyond the retry budget, so '
         'that retransmissions are on the wire; close_session() called a second time; close_session() called as '
-        'clean-up after a failure at each step.  Judged: no datagram (retransmissions included) is flagged by the '
-        'BMC; the authentication type asked for is the strongest one offered that IpmiMsg.pack implements; the '
+        'clean-up after a failure at EVERY step (ping, the four handshake requests, a request), whatever the state of '
+        'the interface - the caller of try: open() finally: close() cannot know how far the handshake got; capability '
+        'bytes that offer no type at all (00h, 08h, C0h) or no implemented one (MD2 / OEM only), each also followed '
+        'by the clean-up close.  An injected error completion code is a refusal (Spec.BmcSession.stepRefused: the BMC '
+        'does not execute the request, the monitor counts the datagram).  Judged: no datagram (retransmissions '
+        'included) is flagged by the BMC - in particular no Get Session Challenge for a type the BMC did not offer; '
+        'the authentication type asked for is the strongest one offered that IpmiMsg.pack implements; when nothing '
+        'the BMC offers is implemented the outcome is NotSupportedError, and when it offers nothing at all nothing is '
+        'sent after the capabilities exchange; the '
         'number of datagrams and the outcome are those of a console that sends each request at most max_retries+1 '
-        'times and stops at the first failure; an un-faulted session reaches "closed"; a session the BMC granted and '
-        'the console knows of is closed by the clean-up (one Close Session, BMC closed), nothing is sent otherwise.  '
+        'times and stops at the first failure; an un-faulted session reaches "closed"; the clean-up close never ends in a '
+        'Python error, returns normally when its own datagrams are not hit by a fault, sends exactly one Close Session '
+        'for the granted id when the BMC had granted the session (BMC closed afterwards) and nothing otherwise, and '
+        'leaves no session open on the BMC.  '
         'The same reply script is '
         'played to the Lean model of the client and every datagram (byte for byte), the outcome and the final '
         'session state are compared.  Distinct by scenario.')
@@ -39,6 +48,16 @@ ASSUMPTIONS = [
     'fault beyond the budget or an error completion code is checked by this run only',
     'session_datagrams / bmc_never_objects quantify over the reference BMC family (every BmcCfg satisfying Setup), not over '
     'arbitrary third-party BMC implementations',
+    'fault model of the clean-up clauses (theorems close_after_failed_open*, and the injected faults of this run): a datagram '
+    'that gets no answer was not acted on by the BMC, an error completion code means the BMC did not execute the request '
+    '(a granted session whose Activate Session ANSWER is lost cannot be closed by any console; it expires on the BMC)',
+    'when the BMC offers only types the library does not implement (MD2 and/or OEM) the library still asks for a challenge '
+    'for that (offered) type and raises NotSupportedError when packing Activate Session (documented in get_max_auth_type); '
+    'this is accepted: the BMC does not object, the temporary session id expires',
+    'NOT generated (outside the quantifier / boundary, reported by the audit as observations): no user name configured '
+    '(set_auth_type_user never called: user None with MD5 / password raises AttributeError in _padd_password), non-ASCII '
+    'user names (padded to 16 characters, not 16 bytes), a bytes user name, requests longer than 255 bytes (consume a '
+    'sequence number without being sent), a second establish_session() without close_session(), OSError from sendto',
 ]
 TRUSTED = ['harness/translate/rmcp.py', 'harness/translate/session.py', 'harness/sim/fakesock.py', 'harness/props/c06.py']
 
@@ -90,6 +109,42 @@ def _probe_empty():
     return _probe_empty_variant()
 
 
+def _probe_close_guard():
+    """'s' if close_session() on an interface without a session object raises AttributeError (as shipped),
+    'i' if it returns (intended)."""
+    try:
+        from pyipmi.interfaces import rmcp as R
+        rm = R.Rmcp(keep_alive_interval=0)
+        rm._session = None
+        rm.close_session()
+    except AttributeError:
+        return 's'
+    except Exception:  # noqa
+        return 'i'
+    return 'i'
+
+
+NOAUTH_PROBE = {'op': 'session', 'user': 'probe', 'pw': {'kind': 'str', 'text': 'probe'}, 'priv': 4, 'ignore': 0,
+                'max_retries': 0, 'closes': 1,
+                'rounds': [{'bmc': {'caps': 0, 'user': 'probe', 'pw': b'probe'.hex(), 'priv': 4, 'tempSid': 1,
+                                    'challenge': '00' * 16, 'sid': 2, 'inSeq0': 1}, 'outSeq': 1, 'n': 0, 'inject': {}}]}
+
+
+def _probe_noauth(drv):
+    """'i' if establish_session stops with NotSupportedError right after the capabilities exchange when the BMC
+    offers no authentication type (intended), 's' if it goes on to Get Session Challenge (as shipped)."""
+    try:
+        rr = run_real(drv, NOAUTH_PROBE)['rounds'][0]
+    except Exception:  # noqa
+        return 's'
+    return 'i' if (len(rr['sent']) == 2 and rr['outcome'] == 'NotSupportedError') else 's'
+
+
+def _variants(drv):
+    """which variant of each as-shipped / intended place of the model the working tree has (probed on the real code)"""
+    return {'pref': _probe_pref(), 'er': _probe_empty(), 'cg': _probe_close_guard(), 'na': _probe_noauth(drv)}
+
+
 # ----------------------------------------------------------------- one scenario on the real code
 def run_real(drv, sc):
     """Returns dict(outcome, sent=[hex], replies=[hex|'silent'], verdicts=[str], state=str, bmc=str)."""
@@ -112,7 +167,8 @@ def run_real(drv, sc):
                 b['caps'], lean.hexs(b['user'].encode()), lean.hexs(bytes.fromhex(b['pw'])), b['priv'],
                 b['tempSid'], b['challenge'], b['sid'], b['inSeq0']))
             R.random.randrange = lambda a, z, _v=rnd['outSeq']: _v
-            state0 = (session.sid, session.sequence_number, 1 if session.activated else 0, rm.next_sequence_number)
+            state0 = (session.sid, session.sequence_number, 1 if session.activated else 0, rm.next_sequence_number,
+                      1 if rm._session is not None else 0, 256 if session.auth_type is None else session.auth_type)
             sent, replies, verdicts = [], [], []
             inject = dict((int(k), v) for k, v in rnd.get('inject', {}).items())
 
@@ -150,8 +206,8 @@ def run_real(drv, sc):
             except Exception as e:  # noqa
                 outcome = _tag(e)
                 n_main = len(sent)
-                # what a caller does in its `finally`: close what was opened (possible once the session is attached)
-                if sc.get('closes', 1) == 'c' and stage != 'close' and rm._session is not None:
+                # what a caller does in its `finally`: close, whatever was or was not opened (it cannot know)
+                if sc.get('closes', 1) == 'c' and stage != 'close':
                     cleanup = 'ok'
                     try:
                         rm.close_session()
@@ -171,15 +227,15 @@ def run_real(drv, sc):
     return res
 
 
-def _model_line(sc, rnd, rr, pref, er):
+def _model_line(sc, rnd, rr, var):
     pw = bytes.fromhex(sc['pw']['hex']) if sc['pw']['kind'] == 'bytes' else sc['pw']['text'].encode()
     reps = ' '.join('silent' if r is None else lean.hexs(r) for r in rr['replies'])
     s0 = rr['state0']
-    return 'model %s %s %d %d %s %s %s %d %d %d %d %d %d %d %s' % (
-        pref, er, 1 if sc.get('ignore') else 0, sc.get('max_retries', 0), sc.get('closes', 1),
-        lean.hexs(sc['user'].encode()), lean.hexs(pw),
+    return 'model %s %s %s %s %d %d %s %s %s %d %d %d %d %d %d %d %d %d %s' % (
+        var['pref'], var['er'], var['cg'], var['na'], 1 if sc.get('ignore') else 0, sc.get('max_retries', 0),
+        sc.get('closes', 1), lean.hexs(sc['user'].encode()), lean.hexs(pw),
         sc['priv'],
-        rnd['outSeq'], rnd['n'], s0[0], s0[1], s0[2], s0[3], reps)
+        rnd['outSeq'], rnd['n'], s0[0], s0[1], s0[2], s0[3], s0[4], s0[5], reps)
 
 
 def _expect(sc, rnd):
@@ -216,7 +272,54 @@ def _kind_of(d):
     return d[off + 5] if len(d) > off + 5 else None
 
 
-def judge(ctx, drv, sc, pref, er, tie=True, verbose=False):
+STEP_OF = {'ping': 'ping', 0x38: 'Get Channel Authentication Capabilities', 0x39: 'Get Session Challenge',
+           0x3a: 'Activate Session', 0x3b: 'Set Session Privilege Level', 0x3c: 'Close Session', 0x01: 'Get Device ID'}
+
+
+def _judge_cleanup(ctx, case, rr, inject):
+    """The caller's clean-up close_session() after a failure.  Returns True when a violation was recorded."""
+    if rr['cleanup'] is None:
+        return False
+    main, extra = rr['sent'][:rr['n_main']], rr['sent'][rr['n_main']:]
+    granted = any(_kind_of(d) == 0x3b for d in main)        # Activate Session was answered: the console holds the granted id
+    failed_at = STEP_OF.get(_kind_of(main[-1]) if main else None, 'before the first datagram')
+    ctx.count('cleanup-close:%s' % ('session-granted' if granted else 'no-session'))
+    ctx.count('cleanup-close-after:%s' % failed_at)
+    if rr['cleanup'].startswith('py:'):
+        ctx.violate('C06:close-after-failed-open:%s' % rr['cleanup'][3:],
+                    'the session could not be opened / used (%s at %s, %s) and the caller\'s clean-up close_session() ended in a '
+                    'Python error %s instead of %s' % (rr['outcome'], rr['stage'], failed_at, rr['cleanup'][3:],
+                                                      'sending Close Session for the granted id' if granted
+                                                      else 'returning (no session was granted: nothing to send)'),
+                    case, expected='close_session() returns; %s' % ('one Close Session' if granted else 'nothing sent'),
+                    observed='%s; %d datagram(s) sent by the close' % (rr['cleanup'], len(extra)))
+        return True
+    if any(i >= rr['n_main'] for i in inject):
+        return False                                         # the close itself was hit by a fault: only "no Python error"
+    if granted and (len(extra) != 1 or _kind_of(extra[0]) != 0x3c or not rr['bmc'].startswith('closed')):
+        ctx.violate('C06:session-left-open', 'opening / using the session failed with %s at stage %s after the BMC had '
+                    'granted the session; close_session() then sent %d datagram(s) and the BMC is left in state %s'
+                    % (rr['outcome'], rr['stage'], len(extra), rr['bmc']), case,
+                    expected='one Close Session for the granted id, BMC closed',
+                    observed='%d datagram(s), BMC %s' % (len(extra), rr['bmc']))
+        return True
+    if not granted and extra:
+        ctx.violate('C06:close-without-session', 'close_session() sent %d datagram(s) although no session had been '
+                    'granted' % len(extra), case, expected='nothing', observed=lean.hexs(extra[0]))
+        return True
+    if rr['cleanup'] != 'ok':
+        ctx.violate('C06:close-after-failed-open:%s' % rr['cleanup'].split(':')[0],
+                    'the clean-up close_session() after %s (%s) raised %s although none of its datagrams was hit by a fault'
+                    % (rr['outcome'], failed_at, rr['cleanup']), case, expected='returns', observed=rr['cleanup'])
+        return True
+    if rr['bmc'].startswith('active'):
+        ctx.violate('C06:session-left-open', 'after the clean-up close_session() the BMC still holds an open session (%s)'
+                    % rr['bmc'], case, expected='no open session', observed=rr['bmc'])
+        return True
+    return False
+
+
+def judge(ctx, drv, sc, var, tie=True, verbose=False):
     res = run_real(drv, sc)
     impl = _implemented()
     for ri, (rnd, rr) in enumerate(zip(sc['rounds'], res['rounds'])):
@@ -229,8 +332,14 @@ def judge(ctx, drv, sc, pref, er, tie=True, verbose=False):
         if verbose:
             print(' round %d: max_retries %d, outcome %s; BMC %s' % (ri, sc.get('max_retries', 0), rr['outcome'], rr['bmc']))
             for i, (d, v) in enumerate(zip(rr['sent'], rr['verdicts'])):
+                if i == rr['n_main'] and rr['cleanup'] is not None:
+                    print('   -- %s; clean-up close_session():' % rr['outcome'])
                 print('   tx[%d] %s' % (i, lean.hexs(d)))
                 print('        BMC: %s%s' % (v[:100], ' (injected: %s)' % inject[i] if i in inject else ''))
+            if rr['cleanup'] is not None:
+                print('   clean-up close_session() after %s: %s; it sent %d datagram(s)'
+                      % (rr['outcome'], 'returned' if rr['cleanup'] == 'ok' else 'RAISED ' + rr['cleanup'],
+                         len(rr['sent']) - rr['n_main']))
         ctx.count('outcome:' + rr['outcome'].split(':')[0])
         ctx.count('datagrams', len(rr['sent']))
         ctx.count('datagrams-lost', sum(1 for i in range(len(rr['sent'])) if inject.get(i) == 'silent'))
@@ -238,10 +347,10 @@ def judge(ctx, drv, sc, pref, er, tie=True, verbose=False):
                                          if inject.get(i - 1) == 'silent' and _kind_of(rr['sent'][i]) == _kind_of(rr['sent'][i - 1])))
         # ---- model tie: outcome, every datagram byte for byte, final session state
         if tie:
-            m = drv.ask(_model_line(sc, rnd, rr, pref, er))
+            m = drv.ask(_model_line(sc, rnd, rr, var))
             parts = m.split(' | ')
-            if len(parts) != 3:
-                ctx.disagree('lifecycle', case, m[:300], 'outcome | datagrams | state')
+            if len(parts) != 4:
+                ctx.disagree('lifecycle', case, m[:300], 'outcome | datagrams | state | clean-up outcome')
             else:
                 mds = [] if parts[1] == '-' else [x.split(':', 1) for x in parts[1].split()]
                 if parts[0] != rr['outcome']:
@@ -256,33 +365,66 @@ def judge(ctx, drv, sc, pref, er, tie=True, verbose=False):
                     ctx.count('datagrams-compared')
                 if parts[2] != rr['state']:
                     ctx.disagree('lifecycle:state', case, parts[2], rr['state'])
+                if parts[3] != (rr['cleanup'] or '-'):
+                    ctx.disagree('lifecycle:clean-up close', case, parts[3], rr['cleanup'] or '-')
         # ---- property: the BMC never objects
         offered_impl = [a for a in impl if b['caps'] >> CAP_BITS.get(a, 7) & 1]
-        if not offered_impl:
-            # nothing the BMC offers is implemented: no session is possible; all the property can ask is
-            # that the library does not claim one
-            ctx.count('no-common-auth-type')
-            if rr['outcome'] == 'ok':
-                ctx.violate('C06:session-without-common-auth-type', 'a session is reported although the BMC offers no '
-                            'authentication type the library implements (support=0x%02x)' % b['caps'], case,
-                            expected='an error', observed='ok')
-            continue
+        offered_any = [a for a in CAP_BITS if b['caps'] >> CAP_BITS[a] & 1]
         flagged = False
         for i, v in enumerate(rr['verdicts']):
             if v.startswith('error'):
                 why = v.split()[1]
                 k = _kind_of(rr['sent'][i])
-                step = {'ping': 'ping', 0x38: 'Get Channel Authentication Capabilities', 0x39: 'Get Session Challenge',
-                        0x3a: 'Activate Session', 0x3b: 'Set Session Privilege Level', 0x3c: 'Close Session',
-                        0x01: 'Get Device ID'}.get(k, 'command %s' % k)
+                step = STEP_OF.get(k, 'command %s' % k)
                 retx = i > 0 and inject.get(i - 1) == 'silent'
-                ctx.violate('C06:bmc-objects:%s' % why,
-                            'the reference BMC flags datagram %d (%s%s): %s' % (i, step, ', retransmission after a time-out'
-                                                                               if retx else '', why), case,
-                            expected='a datagram that follows the v1.5 session rules', observed=lean.hexs(rr['sent'][i]))
+                if why == 'auth-type-not-offered':
+                    d = rr['sent'][i]
+                    ctx.violate('C06:auth-choice:type-not-offered',
+                                'the BMC offers support=0x%02x (types %s); the library sends Get Session Challenge for '
+                                'authentication type %s, which the BMC did not offer (outcome %s)'
+                                % (b['caps'], offered_any or 'none at all', d[20] & 0x0f if len(d) > 20 else '?', rr['outcome']),
+                                case, expected='no request for a type that is not offered%s'
+                                % ('' if offered_impl else ': NotSupportedError after the capabilities exchange'),
+                                observed=lean.hexs(d))
+                else:
+                    ctx.violate('C06:bmc-objects:%s' % why,
+                                'the reference BMC flags datagram %d (%s%s): %s' % (i, step, ', retransmission after a time-out'
+                                                                                   if retx else '', why), case,
+                                expected='a datagram that follows the v1.5 session rules', observed=lean.hexs(rr['sent'][i]))
                 flagged = True
                 break
         if flagged:
+            continue
+        if not offered_impl:
+            # nothing the BMC offers is implemented: no session is possible.  The library must say so (NotSupportedError),
+            # must not ask for anything the BMC did not offer, and - when the BMC offers nothing at all - has nothing
+            # to ask for after the capabilities exchange
+            ctx.count('no-common-auth-type:%s' % ('some-offered' if offered_any else 'none-offered'))
+            if not inject:
+                after = rr['sent'][2:rr['n_main']]
+                if not offered_any and after:
+                    ctx.violate('C06:auth-choice:type-not-offered',
+                                'the BMC offers no authentication type (support=0x%02x) and the library goes on with %s'
+                                % (b['caps'], STEP_OF.get(_kind_of(after[0]), 'a datagram')), case,
+                                expected='nothing after the capabilities exchange', observed=lean.hexs(after[0]))
+                    continue
+                if any(_kind_of(d) in (0x3a, 0x3b) for d in rr['sent']):
+                    ctx.violate('C06:auth-choice:unimplemented-type-used', 'Activate Session is sent although the BMC offers '
+                                'no authentication type the library implements (support=0x%02x)' % b['caps'], case,
+                                expected='NotSupportedError before Activate Session', observed=rr['outcome'])
+                    continue
+                if rr['outcome'] != 'NotSupportedError':
+                    ctx.violate('C06:auth-choice:no-common-type:%s' % rr['outcome'].split(':')[0],
+                                'the BMC offers no authentication type the library implements (support=0x%02x); '
+                                'establish_session ends with %s' % (b['caps'], rr['outcome']), case,
+                                expected='NotSupportedError', observed=rr['outcome'])
+                    continue
+            elif rr['outcome'] == 'ok':
+                ctx.violate('C06:session-without-common-auth-type', 'a session is reported although the BMC offers no '
+                            'authentication type the library implements (support=0x%02x)' % b['caps'], case,
+                            expected='an error', observed='ok')
+                continue
+            _judge_cleanup(ctx, case, rr, inject)
             continue
         # ---- authentication-type choice (as seen in Get Session Challenge)
         chal = [d for d in rr['sent'] if _kind_of(d) == 0x39 and d[4] == 0]
@@ -304,22 +446,10 @@ def judge(ctx, drv, sc, pref, er, tie=True, verbose=False):
         # ---- life cycle: number of datagrams and outcome of a console that follows the protocol
         want_n, want_o = _expect(sc, rnd)
         got_o = rr['outcome'].split(':')[0]
-        main, extra = rr['sent'][:rr['n_main']], rr['sent'][rr['n_main']:]
-        # ---- clean-up after a failure: a session that was granted and is known to the console gets closed
-        if rr['cleanup'] is not None and not any(i >= rr['n_main'] for i in inject):
-            known = any(_kind_of(d) == 0x3b for d in main)        # Activate Session was answered
-            ctx.count('cleanup-close:%s' % ('session-known' if known else 'no-session'))
-            if known and (len(extra) != 1 or _kind_of(extra[0]) != 0x3c or not rr['bmc'].startswith('closed')):
-                ctx.violate('C06:session-left-open', 'opening / using the session failed with %s at stage %s after the BMC had '
-                            'granted the session; close_session() then sent %d datagram(s) and the BMC is left in state %s'
-                            % (rr['outcome'], rr['stage'], len(extra), rr['bmc']), case,
-                            expected='one Close Session for the granted id, BMC closed',
-                            observed='%d datagram(s), BMC %s' % (len(extra), rr['bmc']))
-                continue
-            if not known and extra:
-                ctx.violate('C06:close-without-session', 'close_session() sent %d datagram(s) although no session had been '
-                            'activated' % len(extra), case, expected='nothing', observed=lean.hexs(extra[0]))
-                continue
+        main = rr['sent'][:rr['n_main']]
+        # ---- clean-up after a failure: never a Python error; a granted session gets closed, nothing is sent otherwise
+        if _judge_cleanup(ctx, case, rr, inject):
+            continue
         if want_o == 'ok':
             if rr['outcome'] != 'ok' or not rr['bmc'].startswith('closed'):
                 ctx.violate('C06:session-fails:%s' % got_o,
@@ -460,14 +590,27 @@ def _scenarios(rng, tier):
                         _scenario(rng, caps=rng.choice([0x04, 0x10, 0x15]), rounds=2, n=1, inject=[{str(k): f}, {}],
                                   closes=rng.choice([1, 'c']))))
     out.append(('ignore-len', _scenario(rng, caps=0x15, ignore=1)))
-    # a failure at every step (silence / error completion code), then the caller's clean-up close_session()
-    for k in range(1, 6):
-        for f in (['silent', 0x81, 0xd4] if k != 5 else ['silent']):
+    # a failure at every step - the ping (0), the four handshake requests (1..4), a request (5) - by silence for the
+    # whole retry budget or an error completion code, then the caller's clean-up close_session(): it is called
+    # whatever the state of the interface (no session object before the challenge was obtained)
+    for k in range(0, 6):
+        for f in (['silent', 0x81, 0xd4] if k not in (0, 5) else ['silent']):
             for R in (0, 1):
-                inj = dict((str(k + i), f) for i in range(R + 1)) if f == 'silent' else {str(k): f}
+                inj = dict((str(k + i), f) for i in range(R + 1 if k else 1)) if f == 'silent' else {str(k): f}
                 out.append(('fault-then-cleanup@%d' % k, _scenario(rng, caps=rng.choice([0x04, 0x10, 0x01]), n=1, inject=inj,
                                                                    max_retries=R, closes='c',
                                                                    inSeq0=rng.choice([None, 0xfffffffe, 0xffffffff]))))
+    # the same on objects that have already carried a session (the interface holds the old session object until the
+    # next establish_session() resets it)
+    for k in (0, 1, 2, 3):
+        out.append(('session-then-fault-then-cleanup@%d' % k,
+                    _scenario(rng, caps=rng.choice([0x04, 0x10, 0x01]), rounds=2, n=1,
+                              inject=[{}, {str(k): 'silent'}], closes='c')))
+    # the BMC offers no authentication type at all (support byte 00h; reserved bits only: 08h, C0h), or none that the
+    # library implements (MD2 / OEM): no session is possible; alone and followed by the clean-up close
+    for c in (0x00, 0x08, 0xc0, 0x02, 0x20, 0x22):
+        for closes in (1, 'c'):
+            out.append(('no-common-auth-type', _scenario(rng, caps=c, closes=closes, max_retries=rng.choice([0, 1]))))
     # close_session() called twice: the second call must not put anything on the wire
     for c in (0x01, 0x04, 0x10):
         out.append(('close-twice', _scenario(rng, caps=c, closes=2, rounds=rng.choice([1, 2]))))
@@ -480,9 +623,12 @@ def _scenarios(rng, tier):
 def run(ctx):
     drv = ctx.driver('drv_c06')
     rng = ctx.rng('c06')
-    pref = _probe_pref()
-    er = _probe_empty()
-    ctx.extra['auth_preference_variant'] = {'s': 'asShipped', 'i': 'intended', 'g': 'generated'}[pref]
+    var = _variants(drv)
+    pref = var['pref']
+    names = {'s': 'asShipped', 'i': 'intended', 'g': 'generated'}
+    ctx.extra['auth_preference_variant'] = names[pref]
+    ctx.extra['close_guard_variant'] = names[var['cg']]
+    ctx.extra['no_auth_type_variant'] = names[var['na']]
     ctx.extra['implemented_auth_types'] = _implemented()
     # the choice function alone, every support byte (model vs real get_max_auth_type is covered by the sessions)
     for sup in range(64):
@@ -491,7 +637,7 @@ def run(ctx):
     for i, (kind, sc) in enumerate(scs):
         ctx.case(('session', repr(sc)))
         ctx.count('scenario:' + kind)
-        judge(ctx, drv, sc, pref, er)
+        judge(ctx, drv, sc, var)
         if i in (0, 40, 100):
             ctx.sample({'kind': kind, 'scenario': sc})
         if ctx.time_left() < 20:
@@ -533,7 +679,7 @@ def replay(ctx, v):
     print('scenario: user=%r priv=%d rounds=%d' % (case['user'], case['priv'], len(case['rounds'])))
     for r in case['rounds']:
         print('  BMC: %s  n=%d inject=%s' % (r['bmc'], r['n'], r.get('inject')))
-    judge(c2, drv, case, _probe_pref(), _probe_empty(), tie=False, verbose=True)
+    judge(c2, drv, case, _variants(drv), tie=False, verbose=True)
     for x in c2.violations:
         print('  %s: %s' % (x['signature'], x['what']))
     return bool(c2.violations)
